@@ -36,7 +36,11 @@ type countingReader struct {
 	n int64
 }
 
-func (c *countingReader) Read(p []byte) (int, error) { n, err := c.r.Read(p); c.n += int64(n); return n, err }
+func (c *countingReader) Read(p []byte) (int, error) {
+	n, err := c.r.Read(p)
+	c.n += int64(n)
+	return n, err
+}
 func (c *countingReader) ReadByte() (byte, error) {
 	b, err := c.r.ReadByte()
 	if err == nil {
